@@ -108,7 +108,7 @@ def _mod():
     if _S is None:
         _install_ccd()
         _S = importlib.import_module("biotite.structure.superimpose")
-        if not hasattr(_S, "_get_rotation_matrices"):
+        if not hasattr(_S, "AffineTransformation") or not hasattr(_S, "np"):
             import sys
             _S = sys.modules["biotite.structure.superimpose"]
     return _S
@@ -210,14 +210,173 @@ def _cmp_name(op):
     return type(op).__name__
 
 
+# ---------------------------------------------------------------- private helpers are found by structure, not by name
+_HELPER_CACHE = {}
+
+
+def _call_name(node):
+    return ast.unparse(node.func).replace(" ", "") if isinstance(node, ast.Call) else None
+
+
+def _locate(tree, cmp_tree=None):
+    """role -> current name of the module-private helpers of superimpose.py (and `_sq_euclidian` of compare.py), found by
+    where they are CALLED from the public API; a rename of a private helper therefore changes nothing."""
+    H = {}
+    init = _find_func(tree, "__init__", "AffineTransformation")
+    fs = {_call_name(st.value) for st in init.body if isinstance(st, ast.Assign) and isinstance(st.value, ast.Call)
+          and isinstance(st.targets[0], ast.Attribute) and len(st.value.args) == 2}
+    if len(fs) != 1:
+        raise ValueError("AffineTransformation.__init__ does not store its three arguments through one helper(arg, ndim)")
+    H["expand"] = fs.pop()
+    asm = _find_func(tree, "as_matrix", "AffineTransformation")
+    cand = {}
+    for n in ast.walk(asm):
+        if isinstance(n, ast.Call) and isinstance(n.func, ast.Name) and len(n.args) == 2 and isinstance(n.args[1], ast.Constant):
+            cand[n.func.id] = cand.get(n.func.id, 0) + 1
+    ident = [k for k, c in cand.items() if c == 3]
+    if len(ident) != 1:
+        raise ValueError("as_matrix does not build three helper(count, <literal size>) identity stacks")
+    H["identity"] = ident[0]
+    app = _find_func(tree, "apply", "AffineTransformation")
+    xs = [st.targets[0].id for st in app.body if isinstance(st, ast.Assign) and isinstance(st.targets[0], ast.Name)
+          and ast.unparse(st.value).replace(" ", "") == "coord(atoms)"]
+    if len(xs) != 1:
+        raise ValueError("apply does not start from coord(atoms)")
+    rs = [_call_name(st.value) for st in app.body if isinstance(st, ast.Assign) and isinstance(st.value, ast.Call)
+          and isinstance(st.value.func, ast.Name) and [ast.unparse(a) for a in st.value.args] == [xs[0]]
+          and isinstance(st.targets[0], ast.Name) and st.targets[0].id == xs[0]]
+    if len(rs) != 1:
+        raise ValueError("apply does not pass its coordinates through one reshape helper")
+    H["reshape"] = rs[0]
+    mm = [_call_name(n) for n in ast.walk(app) if isinstance(n, ast.Call) and isinstance(n.func, ast.Name) and len(n.args) == 2
+          and ast.unparse(n.args[0]) == "self.rotation"]
+    if len(mm) != 1:
+        raise ValueError("apply does not multiply through one helper(self.rotation, coordinates)")
+    H["matmul"] = mm[0]
+    sup = _find_func(tree, "superimpose")
+    ctor = [n for n in ast.walk(sup) if isinstance(n, ast.Call) and _call_name(n) == "AffineTransformation" and len(n.args) == 3]
+    if len(ctor) != 1 or not isinstance(ctor[0].args[1], ast.Name):
+        raise ValueError("superimpose does not build AffineTransformation(-c, rotation, t)")
+    rot = [_call_name(st.value) for st in sup.body if isinstance(st, ast.Assign) and isinstance(st.targets[0], ast.Name)
+           and st.targets[0].id == ctor[0].args[1].id and isinstance(st.value, ast.Call) and len(st.value.args) == 2]
+    if len(rot) != 1:
+        raise ValueError("superimpose: the rotation is not the result of one helper(fixed_centred, mobile_centred)")
+    H["rotation"] = rot[0]
+    hom = _find_func(tree, "superimpose_homologs")
+    bb, ma = set(), set()
+    for n in ast.walk(hom):
+        if isinstance(n, ast.Call) and isinstance(n.func, ast.Name):
+            a = [ast.unparse(x).replace(" ", "") for x in n.args]
+            if a in (["fixed"], ["mobile"]):
+                bb.add(n.func.id)
+            if len(a) == 5 and a[0].startswith("fixed[...,") and a[1].startswith("mobile[...,"):
+                ma.add(n.func.id)
+    if len(bb) != 1 or len(ma) != 1:
+        raise ValueError("superimpose_homologs: backbone-index / anchor-matching helpers not found")
+    H["backbone"], H["matching"] = bb.pop(), ma.pop()
+    if cmp_tree is not None:
+        r = [st for st in _find_func(cmp_tree, "rmsd").body if isinstance(st, ast.Return)]
+        sq = [n.func.id for n in ast.walk(r[0].value) if isinstance(n, ast.Call) and isinstance(n.func, ast.Name)
+              and [ast.unparse(x) for x in n.args] == ["reference", "subject"]] if r else []
+        if len(sq) != 1:
+            raise ValueError("rmsd does not reduce one helper(reference, subject)")
+        H["sqeuclid"] = sq[0]
+    return H
+
+
+def _helpers():
+    """Names of the private helpers in the tree under test (for the adapter: never call a private helper by a fixed name)."""
+    from common import paths
+    key = paths.SRC
+    if key not in _HELPER_CACHE:
+        tree = ast.parse(open(os.path.join(paths.SRC, "biotite/structure/superimpose.py")).read())
+        cmp_tree = ast.parse(open(os.path.join(paths.SRC, "biotite/structure/compare.py")).read())
+        _HELPER_CACHE[key] = _locate(tree, cmp_tree)
+    return _HELPER_CACHE[key]
+
+
+def _hp(role):
+    return getattr(_mod(), _helpers()[role])
+
+
+def _alpha(f):
+    """Alpha-normalised copy of a PRIVATE function: parameters P0.., assigned locals L0.. (source order), docstring,
+    annotations and the arguments of `raise` dropped — what is left is structure, literals, operators and public names."""
+    import copy
+    g = copy.deepcopy(f)
+    ren = {a.arg: f"P{i}" for i, a in enumerate(g.args.args)}
+    for a in g.args.args:
+        a.annotation = None
+    g.returns = None
+    if g.body and isinstance(g.body[0], ast.Expr) and isinstance(g.body[0].value, ast.Constant) and isinstance(g.body[0].value.value, str):
+        g.body = g.body[1:]
+
+    class Coll(ast.NodeVisitor):
+        def visit_Name(self, n):
+            if isinstance(n.ctx, ast.Store) and n.id not in ren and n.id != "_":
+                ren[n.id] = f"L{sum(1 for v in ren.values() if v[0] == 'L')}"
+    Coll().visit(g)
+
+    class Ren(ast.NodeTransformer):
+        def visit_Name(self, n):
+            n.id = ren.get(n.id, n.id)
+            return n
+
+        def visit_arg(self, n):
+            n.arg = ren.get(n.arg, n.arg)
+            return n
+
+        def visit_Raise(self, n):
+            if isinstance(n.exc, ast.Call):
+                n.exc.args, n.exc.keywords = [], []
+            return n
+    return Ren().visit(g)
+
+
+def _ndim_table(f, lo=0, hi=5):
+    """Semantic table of a function that dispatches on `<param>.ndim`: for every ndim the first action reached
+    (`raise:<Exc>`, `newaxis`, `identity`) — independent of the order / nesting of the tests."""
+    g = _alpha(f)
+    table = []
+    for k in range(lo, hi + 1):
+        def ev(test):
+            if isinstance(test, ast.Compare) and _u(test.left) == "P0.ndim" and len(test.ops) == 1:
+                c = ast.literal_eval(test.comparators[0])
+                return {"Lt": k < c, "LtE": k <= c, "Gt": k > c, "GtE": k >= c, "Eq": k == c, "NotEq": k != c}[_cmp_name(test.ops[0])]
+            raise ValueError("unexpected test in the ndim dispatch: " + ast.unparse(test))
+
+        def run(stmts):
+            for st in stmts:
+                if isinstance(st, ast.If):
+                    r = run(st.body) if ev(st.test) else run(st.orelse)
+                    if r is not None:
+                        return r
+                elif isinstance(st, ast.Raise):
+                    return "raise:" + ast.unparse(st.exc.func)
+                elif isinstance(st, ast.Return):
+                    v = _u(st.value)
+                    if v == "P0":
+                        return "identity"
+                    if v == "P0[np.newaxis,...]":
+                        return "newaxis"
+                    raise ValueError("unexpected return in the ndim dispatch: " + v)
+                else:
+                    raise ValueError("unexpected statement in the ndim dispatch: " + ast.unparse(st))
+            return None
+        table.append(f"{k}:{run(g.body)}")
+    return table
+
+
 def gen_lean():
     """Extract the guards/constants of superimpose.py the model hard-codes (never guessed: raise if absent)."""
     from common import paths
     src = open(os.path.join(paths.SRC, "biotite/structure/superimpose.py")).read()
     tree = ast.parse(src)
+    cmp_tree = ast.parse(open(os.path.join(paths.SRC, "biotite/structure/compare.py")).read())
+    H = _locate(tree, cmp_tree)
 
     # --- _get_rotation_matrices: reflected_mask = det(v) * det(w) < 0 ; v[reflected_mask, :, -1] *= -1 ; matmul(v, w)
-    f = _find_func(tree, "_get_rotation_matrices")
+    f = _find_func(tree, H["rotation"])
     refl_cmp = refl_const = flip_axis = flip_factor = det_names = None
     flip_target = None
     mat_args = None
@@ -240,6 +399,18 @@ def gen_lean():
                 if not isinstance(node.op, ast.Mult):
                     raise ValueError("flip is not a multiplication")
                 flip_factor = ast.literal_eval(node.value)
+        # equivalent form: X[:, :, c] = np.where(mask[...], -col, col) with col = X[:, :, c]
+        if isinstance(node, ast.Assign) and isinstance(node.targets[0], ast.Subscript) and isinstance(node.value, ast.Call) \
+                and ast.unparse(node.value.func) == "np.where" and len(node.value.args) == 3:
+            tgt, (cnd, a1, a2) = node.targets[0], node.value.args
+            sl = tgt.slice
+            if isinstance(sl, ast.Tuple) and len(sl.elts) == 3 and all(isinstance(e, ast.Slice) and e.lower is None and e.upper is None for e in sl.elts[:2]) \
+                    and isinstance(a1, ast.UnaryOp) and isinstance(a1.op, ast.USub) and ast.unparse(a1.operand) == ast.unparse(a2):
+                src_col = [ast.unparse(st.value) for st in ast.walk(f) if isinstance(st, ast.Assign) and ast.unparse(st.targets[0]) == ast.unparse(a2)]
+                if src_col == [ast.unparse(tgt)] or ast.unparse(a2) == ast.unparse(tgt):
+                    flip_target = ast.unparse(tgt.value)
+                    flip_axis = ast.literal_eval(sl.elts[2])
+                    flip_factor = -1
         if isinstance(node, ast.Call) and ast.unparse(node.func) in ("np.matmul",) and len(node.args) == 2:
             mat_args = [ast.unparse(a) for a in node.args]
     svd_names = None
@@ -290,7 +461,7 @@ def gen_lean():
     for node in f.body:
         if isinstance(node, ast.AugAssign) and isinstance(node.op, ast.Add):
             steps.append("add:" + [n.attr for n in ast.walk(node.value) if isinstance(n, ast.Attribute) and n.attr.endswith("translation")][0])
-        if isinstance(node, ast.Assign) and isinstance(node.value, ast.Call) and ast.unparse(node.value.func) == "_multi_matmul":
+        if isinstance(node, ast.Assign) and isinstance(node.value, ast.Call) and ast.unparse(node.value.func) == H["matmul"]:
             steps.append("matmul:" + ast.unparse(node.value.args[0]).replace("self.", ""))
     if len(steps) != 3:
         raise ValueError("apply: expected add / matmul / add, found " + repr(steps))
@@ -357,7 +528,8 @@ def gen_lean():
             fit_masks.add(node.slice.elts[1].id)
         if isinstance(node, ast.Assign) and isinstance(node.targets[0], ast.Name) and node.targets[0].id == ret_anchor_name:
             names = [n.id for n in ast.walk(node.value) if isinstance(n, ast.Name) and n.id != "np"]
-            if not ast.unparse(node.value).startswith("np.where(") or len(names) != 1:
+            if not (ast.unparse(node.value).startswith("np.where(") and ast.unparse(node.value).endswith("[0]")
+                    or ast.unparse(node.value).startswith("np.flatnonzero(")) or len(names) != 1:
                 raise ValueError("anchor_indices is not np.where(<mask>)[0]")
             returned = names[0]
     if None in (inlier_cmp, min_cmp, iter_cmp, iter_const, returned) or len(fit_masks) != 1:
@@ -401,9 +573,8 @@ def gen_lean():
         f"def defaultMaxIterations : Nat := {int(defaults['max_iterations'])}",
         f"def defaultQuantiles : List (Int × Nat) := [{rat(q[0])}, {rat(q[1])}]",
         f"def defaultThreshold : Int × Nat := {rat(defaults['outlier_threshold'])}"]
-    cmp_tree = ast.parse(open(os.path.join(paths.SRC, "biotite/structure/compare.py")).read())
     geo_tree = ast.parse(open(os.path.join(paths.SRC, "biotite/structure/geometry.py")).read())
-    body += _gen_structure(tree, cmp_tree, geo_tree)
+    body += _gen_structure(tree, cmp_tree, geo_tree, H)
     body += ["end BiotiteModel.Gen.C16", ""]
     return {"BiotiteModel/Gen/C16.lean": "\n".join(body)}
 
@@ -441,7 +612,7 @@ def _sig_defaults(f):
     return names, {n: ast.literal_eval(d) for n, d in zip(names[len(names) - len(ds):], ds)}
 
 
-def _gen_structure(tree, cmp_tree, geo_tree):
+def _gen_structure(tree, cmp_tree, geo_tree, H):
     """Structural facts of the anchored source the hand-written model hard-codes, as Lean definitions."""
     L = []
     S = lambda x: '"' + str(x) + '"'                                  # noqa: E731
@@ -453,16 +624,18 @@ def _gen_structure(tree, cmp_tree, geo_tree):
     params = [a.arg for a in f.args.args][1:]
     dims = {}
     for st in f.body:
-        if isinstance(st, ast.Assign) and isinstance(st.value, ast.Call) and _u(st.value.func) == "_expand_dims":
+        if isinstance(st, ast.Assign) and isinstance(st.value, ast.Call) and _u(st.value.func) == H["expand"]:
             dims[st.targets[0].attr] = (ast.unparse(st.value.args[0]), ast.literal_eval(st.value.args[1]))
     _need(len(dims) == 3, "__init__ does not store three _expand_dims(...) results")
     L += ["/-- constructor parameters (the adapter passes them positionally) and `attr := _expand_dims(param, n)`. -/",
           f"def ctorParams : List String := {SL(params)}",
           "def ctorStores : List (String × String × Nat) := [" + ", ".join(f"({S(a)}, {S(dims[a][0])}, {dims[a][1]})" for a in sorted(dims)) + "]"]
-    f = _find_func(tree, "_expand_dims")
-    w = [st for st in f.body if isinstance(st, ast.While)]
-    _need(len(w) == 1 and _u(w[0].test) == "array.ndim<n_dims" and _u(w[0].body[0]) == "array=array[np.newaxis,...]",
-          "_expand_dims is not `while array.ndim < n_dims: array = array[np.newaxis, ...]`")
+    g = _alpha(_find_func(tree, H["expand"]))
+    w = [st for st in g.body if isinstance(st, (ast.While, ast.For))]
+    ok = len(w) == 1 and len(w[0].body) == 1 and _u(w[0].body[0]) == "P0=P0[np.newaxis,...]" and _u(g.body[-1]) == "returnP0" and (
+        (isinstance(w[0], ast.While) and _u(w[0].test) == "P0.ndim<P1")
+        or (isinstance(w[0], ast.For) and _u(w[0].iter) == "range(P1-P0.ndim)"))        # the same number of prepended axes
+    _need(ok, "the dimension-expanding helper does not prepend axes until ndim == n")
     L += ['def expandDims : String := "prepend-axes-while-ndim<n"']
 
     # ---- apply: model-count guard, copy of the input, result reshaped to the input shape
@@ -477,9 +650,12 @@ def _gen_structure(tree, cmp_tree, geo_tree):
     attr = [n.attr for n in ast.walk(t.comparators[0]) if isinstance(n, ast.Attribute) and isinstance(n.value, ast.Name) and n.value.id == "self"]
     _need(len(attr) == 1 and _u(t.comparators[0]) == f"self.{attr[0]}.shape[0]", "apply guard right-hand side is not self.<attr>.shape[0]")
     copies = any(isinstance(st, ast.Assign) and _u(st.value) == f"{X}.copy()" for st in f.body)
-    reshape = any(isinstance(st, ast.Assign) and _u(st.value).endswith(".reshape(original_shape)") for st in f.body)
+    shp = [st.targets[0].id for st in f.body if isinstance(st, ast.Assign) and isinstance(st.targets[0], ast.Name)
+           and _u(st.value) == f"{X}.shape"]              # the local remembering the input shape, whatever it is called
+    reshape = len(shp) == 1 and any(isinstance(st, ast.Assign) and _u(st.value).endswith(f".reshape({shp[0]})") for st in f.body)
     pre = [_us(st.value, {X: "mobile_coord"}) for st in f.body if isinstance(st, ast.Assign) and isinstance(st.targets[0], ast.Name)
            and st.targets[0].id == X]
+    pre = [x.replace(H["reshape"] + "(", "RESHAPE3D(") for x in pre]
     L += ["/-- `apply`: `if mobile_coord.shape[0] <cmp> self.<attr>.shape[0]: raise <exc>`; works on a copy; reshapes back. -/",
           f"def applyGuard : List String := {SL([_cmp_name(t.ops[0]), attr[0], _raise_class(guard[0].body)])}",
           f"def applyCopiesInput : Bool := {'true' if copies else 'false'}",
@@ -487,25 +663,14 @@ def _gen_structure(tree, cmp_tree, geo_tree):
           f"def applyInput : List String := {SL(pre)}"]
 
     # ---- _reshape_to_3d: the ndim ladder
-    f = _find_func(tree, "_reshape_to_3d")
-    ladder = []
+    f = _find_func(tree, H["reshape"])
+    ladder = _ndim_table(f)
 
-    def walk_if(st):
-        _need(isinstance(st.test, ast.Compare) and _u(st.test.left) == "coord.ndim", "_reshape_to_3d test is not on coord.ndim")
-        act = _raise_class(st.body) and "raise:" + _raise_class(st.body) or _u(st.body[0])
-        ladder.append(f"{_cmp_name(st.test.ops[0])} {ast.literal_eval(st.test.comparators[0])} {act}")
-        if len(st.orelse) == 1 and isinstance(st.orelse[0], ast.If):
-            walk_if(st.orelse[0])
-        elif st.orelse:
-            ladder.append("else " + (_raise_class(st.orelse) and "raise:" + _raise_class(st.orelse) or _u(st.orelse[0])))
-    for st in f.body:
-        if isinstance(st, ast.If):
-            walk_if(st)
-    L += ["/-- `_reshape_to_3d`: the tests on `coord.ndim` in order. -/", f"def reshapeLadder : List String := {SL(ladder)}"]
+    L += ["/-- `_reshape_to_3d`: what happens for ndim = 0..5 (semantic table, independent of the order of the tests). -/", f"def reshapeLadder : List String := {SL(ladder)}"]
 
     # ---- as_matrix: size of the identity matrices, where the model count comes from; _3d_identity
     f = _find_func(tree, "as_matrix", "AffineTransformation")
-    calls = [n for n in ast.walk(f) if isinstance(n, ast.Call) and _u(n.func) == "_3d_identity"]
+    calls = [n for n in ast.walk(f) if isinstance(n, ast.Call) and _u(n.func) == H["identity"]]
     _need(len(calls) == 3 and all(len(c.args) == 2 and not c.keywords for c in calls), "as_matrix does not build three _3d_identity(m, n)")
     sizes = sorted({ast.literal_eval(c.args[1]) for c in calls})
     cnt = {_u(c.args[0]) for c in calls}
@@ -513,11 +678,17 @@ def _gen_structure(tree, cmp_tree, geo_tree):
     cnt_name = next(iter(cnt))
     cnt_src = [_u(st.value) for st in f.body if isinstance(st, ast.Assign) and _u(st.targets[0]) == cnt_name]
     _need(len(cnt_src) == 1, "model count of as_matrix not found")
-    g = _find_func(tree, "_3d_identity")
-    z = [n for n in ast.walk(g) if isinstance(n, ast.Call) and _u(n.func) == "np.zeros"]
-    _need(len(z) == 1 and _u(z[0].args[0]) == "(m,n,n)" and [k.arg for k in z[0].keywords] == ["dtype"], "_3d_identity: np.zeros((m,n,n), dtype=…) not found")
-    diag = [st for st in g.body if isinstance(st, ast.Assign) and isinstance(st.targets[0], ast.Subscript)]
-    _need(len(diag) == 1 and _u(diag[0].targets[0]) == "matrices[:,indices,indices]" and ast.literal_eval(diag[0].value) == 1, "_3d_identity diagonal")
+    g = _alpha(_find_func(tree, H["identity"]))
+    z = [n for n in ast.walk(g) if isinstance(n, ast.Call) and _u(n.func) in ("np.zeros", "np.eye")]
+    _need(len(z) == 1 and [k.arg for k in z[0].keywords] == ["dtype"], "identity helper: one np.zeros/np.eye(..., dtype=…) expected")
+    if _u(z[0].func) == "np.zeros":          # zeros((m,n,n)) + diagonal := 1
+        diag = [st for st in g.body if isinstance(st, ast.Assign) and isinstance(st.targets[0], ast.Subscript)]
+        rng_ = [st for st in g.body if isinstance(st, ast.Assign) and _u(st.value) == "np.arange(P1)"]
+        _need(_u(z[0].args[0]) == "(P0,P1,P1)" and len(diag) == 1 and len(rng_) == 1 and ast.literal_eval(diag[0].value) == 1
+              and _u(diag[0].targets[0]) == "L0[:,{0},{0}]".format(rng_[0].targets[0].id), "identity helper: zeros + unit diagonal")
+    else:                                       # broadcast_to(eye(n), (m,n,n)).copy()
+        _need(_u(g.body[-1]) == "returnnp.broadcast_to(np.eye(P1,dtype=" + _u(z[0].keywords[0].value) + "),(P0,P1,P1)).copy()",
+              "identity helper: broadcast eye form")
     L += ["/-- `as_matrix`: identity size, source of the model count; `_3d_identity`: dtype of the zeros, diagonal value 1. -/",
           f"def matrixSize : Nat := {sizes[0]}", f"def matrixCount : String := {S(cnt_src[0])}",
           f"def identityDtype : String := {S(_u(z[0].keywords[0].value))}"]
@@ -525,19 +696,21 @@ def _gen_structure(tree, cmp_tree, geo_tree):
     # ---- superimpose: mask indexing, centroids of the FILTERED arrays, centring, argument order of the rotation, return
     f = _find_func(tree, "superimpose")
     names, dflt = _sig_defaults(f)
-    maskif = [st for st in f.body if isinstance(st, ast.If) and _u(st.test) == "atom_maskisnotNone"]
-    _need(len(maskif) == 1, "superimpose: `if atom_mask is not None` not found")
+    maskif = [st for st in f.body if isinstance(st, ast.If) and _u(st.test) in ("atom_maskisnotNone", "atom_maskisNone")]
+    _need(len(maskif) == 1, "superimpose: `if atom_mask is (not) None` not found")
+    masked_branch, plain_branch = (maskif[0].body, maskif[0].orelse) if _u(maskif[0].test) == "atom_maskisnotNone" \
+        else (maskif[0].orelse, maskif[0].body)
     filt = {}
-    for st in maskif[0].body:
+    for st in masked_branch:
         _need(isinstance(st, ast.Assign) and isinstance(st.value, ast.Subscript), "mask branch is not a pair of subscript assignments")
         sl = st.value.slice
         _need(isinstance(sl, ast.Tuple) and [_u(e) for e in sl.elts] == [":", "atom_mask", ":"], "mask is not applied as [:, atom_mask, :]")
         filt[st.targets[0].id] = ast.unparse(st.value.value)
-    unf = {st.targets[0].id: _u(st.value) for st in maskif[0].orelse if isinstance(st, ast.Assign)}
+    unf = {st.targets[0].id: _u(st.value) for st in plain_branch if isinstance(st, ast.Assign)}
     _need(set(unf) == set(filt) and all(unf[k] == f"np.copy({filt[k]})" for k in filt), "unmasked branch is not np.copy of the same arrays")
     src3d = {st.targets[0].id: _u(st.value) for st in f.body if isinstance(st, ast.Assign) and isinstance(st.targets[0], ast.Name)
-             and _u(st.value).startswith("_reshape_to_3d(coord(")}
-    role = {k: src3d[v][len("_reshape_to_3d(coord("):-2] for k, v in filt.items()}        # filtered var -> fixed/mobile
+             and _u(st.value).startswith(H["reshape"] + "(coord(")}
+    role = {k: src3d[v][len(H["reshape"] + "(coord("):-2] for k, v in filt.items()}        # filtered var -> fixed/mobile
     _need(sorted(role.values()) == ["fixed", "mobile"], "filtered arrays do not come from coord(fixed) / coord(mobile)")
     cents, centred = {}, {}
     for st in f.body:
@@ -550,9 +723,13 @@ def _gen_structure(tree, cmp_tree, geo_tree):
             _need(l in role and r.endswith("[:,np.newaxis,:]") and cents.get(r.split("[")[0]) == role[l],
                   f"centring `{ast.unparse(st.value)}` does not subtract the array's own centroid")
             centred[st.targets[0].id] = role[l]
-    rc = [n for n in ast.walk(f) if isinstance(n, ast.Call) and _u(n.func) == "_get_rotation_matrices"]
+    rc = [n for n in ast.walk(f) if isinstance(n, ast.Call) and _u(n.func) == H["rotation"]]
     _need(len(rc) == 1 and len(rc[0].args) == 2 and all(_u(a) in centred for a in rc[0].args), "rotation is not computed from the two centred arrays")
     ret = [st for st in f.body if isinstance(st, ast.Return)][-1].value
+    tn = [st.targets[0].id for st in f.body if isinstance(st, ast.Assign) and isinstance(st.value, ast.Call)
+          and _u(st.value.func) == "AffineTransformation"]
+    _need(len(tn) == 1, "superimpose: one AffineTransformation(...) assignment")
+    tname = tn[0]
     L += ["/-- `superimpose`: signature, mask application, what the centroids are taken of, centring, rotation arguments, result. -/",
           f"def supParams : List String := {SL(names)}",
           f"def supDefaults : List (String × String) := [" + ", ".join(f"({S(k)}, {S(v)})" for k, v in dflt.items()) + "]",
@@ -560,10 +737,10 @@ def _gen_structure(tree, cmp_tree, geo_tree):
           f"def supCentroidOf : List String := {SL(sorted('filtered-' + v for v in cents.values()))}",
           f"def supCentred : List String := {SL(sorted(centred.values()))}",
           f"def supRotationArgs : List String := {SL([centred[_u(a)] for a in rc[0].args])}",
-          f"def supReturn : String := {S(_u(ret))}"]
+          f"def supReturn : String := {S(_us(ret, {tname: 'transform'}))}"]
 
     # ---- _get_rotation_matrices: the covariance expression and that it reaches svd unchanged
-    f = _find_func(tree, "_get_rotation_matrices")
+    f = _find_func(tree, H["rotation"])
     fparams = [a.arg for a in f.args.args]
     body = [st for st in f.body if not (isinstance(st, ast.Expr) and isinstance(st.value, ast.Constant))]
     _need(isinstance(body[0], ast.Assign) and isinstance(body[0].value, ast.Call) and _u(body[0].value.func) == "np.sum",
@@ -582,14 +759,14 @@ def _gen_structure(tree, cmp_tree, geo_tree):
           and [_u(a) for a in body[1].value.args] == [cov_name] and not body[1].value.keywords,
           "the covariance does not go straight (next statement, unmodified, no keywords) into np.linalg.svd")
     L += ["/-- `_get_rotation_matrices(fixed, mobile)`: `cov = np.sum(p0[..newaxis@i] * p1[..newaxis@j], axis=k)` handed directly to svd. -/",
-          f"def rotParams : List String := {SL(fparams)}",
+          f"def rotParams : List String := {SL(['fixed', 'mobile'] if len(fparams) == 2 else fparams)}",  # called as (fixed, mobile): supRotationArgs
           f"def covFactors : List String := {SL(fac)}", f"def covAxis : Int := {ast.literal_eval(c.keywords[0].value)}",
           "def covDirectlyToSvd : Bool := true"]
 
     # ---- _multi_matmul
-    f = _find_func(tree, "_multi_matmul")
+    f = _alpha(_find_func(tree, H["matmul"]))
     r = [st for st in f.body if isinstance(st, ast.Return)][0].value
-    _need(_u(r) == "np.transpose(np.matmul(matrices,np.transpose(vectors,axes=(0,2,1))),axes=(0,2,1))", "_multi_matmul changed: " + ast.unparse(r))
+    _need(_u(r) == "np.transpose(np.matmul(P0,np.transpose(P1,axes=(0,2,1))),axes=(0,2,1))", "the batched matmul helper changed: " + ast.unparse(r))
     L += ['def multiMatmul : String := "transpose(matmul(matrices, transpose(vectors,(0,2,1))),(0,2,1))"']
 
     # ---- superimpose_without_outliers: everything the loop model hard-codes
@@ -632,7 +809,9 @@ def _gen_structure(tree, cmp_tree, geo_tree):
     breaks = []
     for st in lb:
         if isinstance(st, ast.If) and any(isinstance(x, ast.Break) for x in st.body):
-            breaks.append("all" if _u(st.test).startswith("np.all(") else ("min_anchors" if "min_anchors" in _u(st.test) else _u(st.test)))
+            # `if A: break` `if B: break`  ==  `if A or B: break` (same short-circuit order)
+            for t_ in (st.test.values if isinstance(st.test, ast.BoolOp) and isinstance(st.test.op, ast.Or) else [st.test]):
+                breaks.append("all" if _u(t_).startswith("np.all(") else ("min_anchors" if "min_anchors" in _u(t_) else _u(t_)))
     ret = [st for st in f.body if isinstance(st, ast.Return)][-1].value
     L += ["/-- `superimpose_without_outliers`: signature, first guard, loop, squared distance, mean over models, quantiles, bound, exits, result. -/",
           f"def wooParams : List String := {SL(names)}",
@@ -646,7 +825,7 @@ def _gen_structure(tree, cmp_tree, geo_tree):
           f"def wooQuantileCall : List String := {SL([_us(a, {sq[0].targets[0].id: 'SQ_DIST'}) for a in qcall[0].value.args] + [k.arg for k in qcall[0].value.keywords])}",
           f"def wooIprIsSecondMinusFirst : Bool := {'true' if (_u(ipr[0].value.left), _u(ipr[0].value.right)) == (qn[1], qn[0]) else 'false'}",
           f"def wooBreaks : List String := {SL(breaks)}",
-          f"def wooReturn : String := {S(_us(ret, {ret.elts[2].id: 'anchor_indices'}) if isinstance(ret, ast.Tuple) and len(ret.elts) == 3 and isinstance(ret.elts[2], ast.Name) else _u(ret))}"]
+          f"def wooReturn : String := {S(_us(ret, {ret.elts[2].id: 'anchor_indices', fit_out[1]: 'transform'}) if isinstance(ret, ast.Tuple) and len(ret.elts) == 3 and isinstance(ret.elts[2], ast.Name) else _u(ret))}"]
 
     # ---- superimpose_homologs and its helpers
     f = _find_func(tree, "superimpose_homologs")
@@ -663,9 +842,9 @@ def _gen_structure(tree, cmp_tree, geo_tree):
     for st in f.body:
         if isinstance(st, ast.Assign) and isinstance(st.value, ast.Call) and isinstance(st.targets[0], ast.Name):
             fn = _u(st.value.func)
-            if fn == "_get_backbone_anchor_indices":
+            if fn == H["backbone"]:
                 env[st.targets[0].id] = f"BACKBONE_{_u(st.value.args[0])}"
-            elif fn == "_find_matching_anchors":
+            elif fn == H["matching"]:
                 env[st.targets[0].id] = "MATCHED"
     _need(sorted(env.values()) == ["BACKBONE_fixed", "BACKBONE_mobile", "MATCHED"], "backbone indices / matched anchors assignments")
     guards = []
@@ -691,11 +870,11 @@ def _gen_structure(tree, cmp_tree, geo_tree):
           f"def homFallbackTest : List String := {SL([_us(fb[0].test.left, env), _cmp_name(fb[0].test.ops[0]), _us(fb[0].test.comparators[0], env)])}",
           f"def homColumns : List (String × String) := [" + ", ".join(f"({S(k)}, {S(v)})" for k, v in sorted(cols.items())) + "]",
           f"def homWooArgs : List String := {SL([_u(a) for a in wc[0].args[2:]] + [('**' if k.arg is None else k.arg + '=') + _u(k.value) for k in wc[0].keywords])}"]
-    f = _find_func(tree, "_get_backbone_anchor_indices")
+    f = _find_func(tree, H["backbone"])
     strs = [n.value for n in ast.walk(f) if isinstance(n, ast.Constant) and isinstance(n.value, str) and len(n.value) < 4]
     fl = [_u(n.func) for n in ast.walk(f) if isinstance(n, ast.Call) and _u(n.func).startswith("filter_")]
     L += [f"def backboneAtoms : List String := {SL(sorted(zip(fl, strs)) and [a + ':' + b for a, b in sorted(zip(fl, strs))])}"]
-    f = _find_func(tree, "_find_matching_anchors")
+    f = _find_func(tree, H["matching"])
     loop = [st for st in f.body if isinstance(st, ast.For)][0]
     _need(_u(loop.iter.func) == "zip" and isinstance(loop.target, ast.Tuple) and len(loop.target.elts) == 2, "chain loop is not `for a, b in zip(...)`")
     zip_kw = [k.arg + "=" + _u(k.value) for k in loop.iter.keywords]
@@ -729,14 +908,14 @@ def _gen_structure(tree, cmp_tree, geo_tree):
     # ---- compare.rmsd / _sq_euclidian, geometry.centroid
     f = _find_func(cmp_tree, "rmsd")
     r = [st for st in f.body if isinstance(st, ast.Return)][0].value
-    g = _find_func(cmp_tree, "_sq_euclidian")
+    g = _find_func(cmp_tree, H["sqeuclid"])
     gg = [st for st in g.body if isinstance(st, ast.If)][0]
     dif = [st for st in g.body if isinstance(st, ast.Assign) and isinstance(st.value, ast.BinOp) and isinstance(st.value.op, ast.Sub)][0]
     h = _find_func(geo_tree, "centroid")
     hr = [st for st in h.body if isinstance(st, ast.Return)][0].value
     cenv = {st.targets[0].id: _u(st.value) for st in g.body if isinstance(st, ast.Assign) and _u(st.value).startswith("coord(")}
     L += ["/-- `rmsd`, `_sq_euclidian` (compare.py) and `centroid` (geometry.py). -/",
-          f"def rmsdExpr : String := {S(_u(r))}",
+          f"def rmsdExpr : String := {S(_u(r).replace(H['sqeuclid'] + '(', 'SQ_EUCLID('))}",
           f"def sqEuclidGuard : List String := {SL([_us(gg.test, cenv), _raise_class(gg.body)])}",
           f"def sqEuclidDiff : String := {S(_us(dif.value, cenv))}",
           f"def centroidExpr : String := {S(_u(hr))}"]
@@ -847,7 +1026,7 @@ def _identity_sup(fixed, mobile, atom_mask=None):
     import numpy as np
     S = _mod()
     mob = S.coord(mobile)
-    k = S._reshape_to_3d(mob).shape[0]
+    k = _hp("reshape")(mob).shape[0]
     eye = np.zeros((k, 3, 3), dtype=np.float32)
     eye[:, [0, 1, 2], [0, 1, 2]] = 1
     T = S.AffineTransformation(np.zeros((k, 3), dtype=np.float32), eye, np.zeros((k, 3), dtype=np.float32))
@@ -902,7 +1081,7 @@ def run_impl(case):
                 pairs = _parse(w[7], (int(w[6]), 2, 3, 3))
                 log = []
                 with _patched(np=_NpShim(pairs, log)):
-                    R = S._get_rotation_matrices(F, M)
+                    R = _hp("rotation")(F, M)
                 out.append(f"ok cov={_flat(log[0])} R={_flat(R)}")
             elif w[0] == "sup":
                 mask = None if w[1] == "-" else np.array([ch == "1" for ch in w[1]])
@@ -954,8 +1133,8 @@ def run_impl(case):
                 def backbone(atoms):
                     calls.append(1)
                     return (FI if len(calls) == 1 else MI).copy()
-                with _patched(superimpose=_identity_sup, _get_backbone_anchor_indices=backbone,
-                              _find_matching_anchors=lambda *a, **k: A.copy()):
+                with _patched(**{"superimpose": _identity_sup, _helpers()["backbone"]: backbone,
+                                 _helpers()["matching"]: (lambda *a, **k: A.copy())}):
                     _, _, fi, mi = S.superimpose_homologs(
                         F, M, min_anchors=int(w[12]), max_iterations=int(w[13]),
                         quantiles=(float(Fraction(w[14])), float(Fraction(w[15]))), outlier_threshold=float(Fraction(w[16])))
@@ -963,8 +1142,8 @@ def run_impl(case):
                 out.append(f"ok fi={lst(fi)} mi={lst(mi)}")
             elif w[0] == "fma":
                 F, M = _atoms_from(case["fixed_atoms"]), _atoms_from(case["mobile_atoms"])
-                FI, MI = S._get_backbone_anchor_indices(F), S._get_backbone_anchor_indices(M)
-                A = S._find_matching_anchors(F[..., FI], M[..., MI], None, -10, False)
+                FI, MI = _hp("backbone")(F), _hp("backbone")(M)
+                A = _hp("matching")(F[..., FI], M[..., MI], None, -10, False)
                 out.append("ok " + (",".join(str(int(x)) for x in np.asarray(A).ravel()) if len(A) else "_"))
             else:
                 out.append("bad-op")
@@ -1334,13 +1513,13 @@ def _gen_homc(rng, force_multichain=False):
     # the op line: chain lengths and per-chain local anchors from the real code on single chain pairs
     try:
         F, M = _atoms_from(fixed), _atoms_from(mobile)
-        Fb, Mb = F[..., S._get_backbone_anchor_indices(F)], M[..., S._get_backbone_anchor_indices(M)]
+        Fb, Mb = F[..., _hp("backbone")(F)], M[..., _hp("backbone")(M)]
         fchains, mchains = list(struc.chain_iter(Fb)), list(struc.chain_iter(Mb))
         lf = [c.array_length() for c in fchains]
         lm = [c.array_length() for c in mchains]
         loc = []
         for fc, mc in zip(fchains, mchains):
-            A = S._find_matching_anchors(fc, mc, None, -10, False)
+            A = _hp("matching")(fc, mc, None, -10, False)
             loc.append(",".join(str(int(x)) for x in np.asarray(A).ravel()) if len(A) else "_")
         case["ops"] = [f"fma {','.join(map(str, lf)) or '_'} {','.join(map(str, lm)) or '_'} {';'.join(loc) or '_'}"]
     except Exception:  # noqa: BLE001
@@ -2210,8 +2389,8 @@ def _oracle_homc(case):
         if nF < minA or nM < minA:
             return []
         try:
-            FI, MI = S._get_backbone_anchor_indices(F), S._get_backbone_anchor_indices(M)
-            nA = len(S._find_matching_anchors(F[..., FI], M[..., MI], kw.get("substitution_matrix"), kw.get("gap_penalty", -10),
+            FI, MI = _hp("backbone")(F), _hp("backbone")(M)
+            nA = len(_hp("matching")(F[..., FI], M[..., MI], kw.get("substitution_matrix"), kw.get("gap_penalty", -10),
                                                kw.get("terminal_penalty", False)))
         except Exception:  # noqa: BLE001
             nA = None
@@ -2473,7 +2652,7 @@ def _oracle_homamb(case):
         if len(fch) != len(mch) or nF < minA or nM < minA:
             return []
         try:
-            nA = len(S._find_matching_anchors(F, M, None, kw.get("gap_penalty", -10), kw.get("terminal_penalty", False)))
+            nA = len(_hp("matching")(F, M, None, kw.get("gap_penalty", -10), kw.get("terminal_penalty", False)))
         except Exception:  # noqa: BLE001
             nA = None
         if nA is not None and nA < minA and nF != nM:
